@@ -40,8 +40,9 @@ GROUPS = {
     ],
     "retwrap": [
         U("retwrap", "WrapInIteratorHelper"), U("retwrap", "WrapInSeq", "list"), U("retwrap", "WrapInSeq", "tuple"), U("retwrap", "WrapInDict"),
-        U("retwrap", "WrapInUxn"), U("retwrap", "WrapInUxns"),
+        U("retwrap", "WrapInUxn"), U("retwrap", "WrapInUxns"), U("retwrap", "Reflected"),
     ],
+    "subdag": [U("subdag", "ConstructSubdagArgUxns"), U("subdag", "DescribeSubDag")],
     "threads": [U("threads", "InDescriptionContext"), U("threads", "ThreadsafeMakeDag"), U("threads", "WrapMakeDag")],
 }
 
